@@ -14,9 +14,9 @@ TARGETS = ["Properties/C14.v", "Eval/PreludeState.v"]
 IMPORTS = ["Eval.EvalRules", "Eval.ModulesProofs", "Properties.C14"]
 THEOREMS = [
     ("C14_visible_iff", "forall m name asking v, module_get m name asking = Some v <-> assoc name (mod_defs m) = Some v /\\ (mod_exports m = None \\/ (exists e, mod_exports m = Some e /\\ In name e) \\/ asking = mod_name m)"),
-    ("C14_get_global_spec", "forall ms name asking, match get_global ms name asking with | GOk v => exists mn, visible_in ms name asking = [(mn, v)] | GAmbiguous l => (2 <= List.length (visible_in ms name asking))%nat /\\ l = map fst (visible_in ms name asking) | GNotFound => visible_in ms name asking = [] end"),
+    ("C14_get_global_spec", "forall ms name asking, match get_global ms name asking with | GOk v => exists mn, visible_in ms name asking = [(mn, v)] | GAmbiguous l => (2 <= List.length (visible_in ms name asking))%nat /\\ l = sort_texts (map fst (visible_in ms name asking)) | GNotFound => visible_in ms name asking = [] end"),
     ("C14_visible_in_spec", "forall ms name asking mn v, In (mn, v) (visible_in ms name asking) <-> exists m, In m ms /\\ mod_name m = mn /\\ module_get m name asking = Some v"),
-    ("C14_order_irrelevant", "forall ms ms' name asking, Permutation.Permutation ms ms' -> match get_global ms name asking, get_global ms' name asking with | GOk v, GOk v' => v = v' | GAmbiguous l, GAmbiguous l' => Permutation.Permutation l l' | GNotFound, GNotFound => True | _, _ => False end"),
+    ("C14_order_irrelevant", "forall ms ms' name asking, Permutation.Permutation ms ms' -> get_global ms name asking = get_global ms' name asking"),
     ("C14_from_module_exported_only", "forall ms name mn v, get_global_from_module ms name mn = FOk v -> exists m, In m ms /\\ mod_name m = mn /\\ exported m name = true /\\ assoc name (mod_defs m) = Some v"),
     ("C14_private_invisible_elsewhere", "forall m name asking e, mod_exports m = Some e -> ~ In name e -> asking <> mod_name m -> module_get m name asking = None"),
     ("C14_private_visible_at_home", "forall m name v, assoc name (mod_defs m) = Some v -> module_get m name (mod_name m) = Some v"),
